@@ -67,6 +67,8 @@ static void harness(void) {
   W(pr)(sp_buf, sp_n, sp_start, o); check_variant("", o, e, 1);
   W(po)(sp_buf, sp_n, sp_start, o); check_variant("", o, e, 0);
   W(qr)(sp_buf, sp_n, sp_start, o); check_variant("", o, e, 1);
+  W(xr)(sp_buf, sp_n, sp_start, o); check_variant("", o, e, 1);
+  W(xo)(sp_buf, sp_n, sp_start, o); check_variant("", o, e, 0);
 #endif
   ASSUME(!sp_exhausted);
   OBS(e.r); OBS(e.pos);
